@@ -71,10 +71,18 @@ def body_E1(ctx):
     Logger._destinations.add(FileDestination(file=f))
     it = AckInterp(ctx, sh.get("N", 4), sh.get("D", 3))
     it.file = f
-    try:
+    foreign = None
+    if sh.get("under_remote"):
+        # a worker process: everything it logs happens inside a task continued from another
+        # process, whose earlier messages (the root's start among them) are in that process's log
+        from eliot import Action
+
+        foreign = "foreign-task"
+        it.check_context = False
+        with Action.continue_task(task_id="%s@/7/2" % foreign):
+            it.run()
+    else:
         it.run()
-    finally:
-        pass
     f.events.append(("ack",))
     events = f.events
     writes = [e[1] for e in events if e[0] == "write"]
@@ -133,7 +141,7 @@ def body_E1(ctx):
     for t in tasks:
         root = t.root()
         by_uuid[root.task_uuid] = t
-        whole = per_task_seen[root.task_uuid] == per_task_total[root.task_uuid]
+        whole = per_task_seen[root.task_uuid] == per_task_total[root.task_uuid] and root.task_uuid != foreign
         ctx.check(t.is_complete() == whole, "task %s has %d of %d messages in the file but is_complete() is %r (program %s, crash at %d)", root.task_uuid, per_task_seen[root.task_uuid], per_task_total[root.task_uuid], t.is_complete(), it.render(), c)
     ctx.check(set(by_uuid) == set(per_task_seen), "tasks %r parsed, messages of tasks %r survived", sorted(by_uuid), sorted(per_task_seen))
     # every started action appears, unfinished ones as started without end
@@ -235,7 +243,7 @@ def E2() -> bool:
 
 def _shards(tier):
     N, D = (4, 3) if tier == "quick" else (5, 3)
-    profiles = [{}, {"open": 1}, {"open": 3}, {"msg": 4}, {"exc": 2}, {"fin": 1}, {"empty_type": 1}]
+    profiles = [{}, {"open": 1}, {"open": 3}, {"msg": 4}, {"exc": 2}, {"fin": 1}, {"empty_type": 1}, {"under_remote": 1, "open": 5}, {"under_remote": 1}]
     out = []
     for p in profiles:
         base = dict(p, N=N if not p else max(2, N - 1), D=D)
@@ -269,7 +277,7 @@ OBLIGATIONS = [
         shards=_shards,
         twin=[{"N": 3, "D": 3, "twin_label": "mid-write-nested"}],
         timeout={"quick": 100, "thorough": 1200},
-        bounds={"quick": "programs <= 4 ops (baseline) / <= 3 ops (6 other style profiles, incl. the default empty action type), depth <= 3; every crash instant; cut classes {nothing, strictly inside, whole}", "thorough": "programs <= 5 / <= 4 ops"},
+        bounds={"quick": "programs <= 4 ops (baseline) / <= 3 ops (8 other style profiles, incl. the default empty action type and a worker whose whole program runs inside a task continued from another process, with start_action or start_task), depth <= 3; every crash instant; cut classes {nothing, strictly inside, whole}", "thorough": "programs <= 5 / <= 4 ops"},
     ),
 ]
 OBLIGATIONS += OBLIGATIONS_TAIL
